@@ -19,6 +19,12 @@ def param_roles(facts, body):
         v = versionless(w.val)
         if tgt and tgt[0] == 1 and len(tgt[1]) == 1 and v[0] == 'param':
             roles[v[1]] = tgt[1][0]
+        elif tgt and tgt[0] == 1 and len(tgt[1]) == 0 and v[0] == 'agg':
+            # `*self = T { f: a, g: b }`: every field written at once
+            for fname, fv in v[3]:
+                fv = versionless(fv)
+                if fv[0] == 'param':
+                    roles[fv[1]] = fname
     for sw in it.switches.values():
         for st in subterms(sw.discr):
             if st[0] == 'call' and len(st[2]) == 2 and cinfo(st[1])['name'] in ('eq', 'ne', 'lt', 'le', 'gt', 'ge', 'cmp', 'partial_cmp'):
@@ -57,6 +63,12 @@ def lww_update(ctx):
         v = versionless(w.val)
         if tgt and tgt[0] == 1 and len(tgt[1]) == 1 and v[0] == 'param':
             sites[tgt[1][0]] = (bb, v[1])
+        elif tgt and tgt[0] == 1 and len(tgt[1]) == 0 and v[0] == 'agg' and v[1] == LWWREG:
+            # `*self = LWWReg { val, marker }`: both fields assigned at once
+            for fname, fv in v[3]:
+                fv = versionless(fv)
+                if fv[0] == 'param':
+                    sites[fname] = (bb, fv[1])
     if set(sites) != {'val', 'marker'}:
         ctx.fail('update', body, 'update does not assign both val and marker from its arguments (assigned: %s)' % sorted(sites))
         return
